@@ -1,8 +1,11 @@
 package main
 
 // C16: buffer.WithErrorHandler over fault-injecting sources; the error
-// handler is a scripted oracle.  See coq/Run/R16.v for the case format.
-// Sources, digests, methods and consumption are shared with C09.
+// handlers (a stack of 1-3 WithErrorHandler decorators) are scripted oracles.
+// See coq/Run/R16.v for the case format.  Sources, digests, methods and
+// consumption are shared with C09.  Observed per handler level: the OnError
+// argument codes and the number of Done calls; per scripted source of a
+// stream-backed buffer (creation order): the number of Close calls.
 
 import (
 	"strconv"
@@ -130,23 +133,34 @@ func (b c16Buf) ucontent() ([]byte, int) {
 	return c09Content(b.evs), 0
 }
 
-// c16Stitch mirrors Run/R16.v [stitch] (only the bytes).
-func c16Stitch(b0 c16Buf, answers []c16Answer) []byte {
-	out := []byte{}
-	b := b0
-	for i := 0; ; i++ {
-		c, t := b.ucontent()
-		k := len(out)
-		if k <= len(c) {
-			out = append(out, c[k:]...)
-		} else if b.kind == 2 {
-			t = 3
-		}
-		if t == 0 || i >= len(answers) || !answers[i].replace {
-			return out
-		}
-		b = answers[i].buf
+// c16Piece mirrors Run/R16.v [piece_of]: bytes from offset k, terminator.
+func c16Piece(b c16Buf, k int) ([]byte, int) {
+	c, t := b.ucontent()
+	if k <= len(c) {
+		return c[k:], t
 	}
+	if b.kind == 2 {
+		t = 3
+	}
+	return nil, t
+}
+
+// c16StitchStack mirrors Run/R16.v [stitch_stack] (only the bytes).
+func c16StitchStack(b0 c16Buf, levels [][]c16Answer) []byte {
+	p, t := c16Piece(b0, 0)
+	out := append([]byte{}, p...)
+	for _, answers := range levels {
+		for i := 0; t != 0; i++ {
+			if i >= len(answers) || !answers[i].replace {
+				t = 1 // an error answer: the next level is offered an error
+				break
+			}
+			var q []byte
+			q, t = c16Piece(answers[i].buf, len(out))
+			out = append(out, q...)
+		}
+	}
+	return out
 }
 
 type c16Handler struct {
@@ -171,6 +185,38 @@ func (h *c16Handler) OnError(err error) (buffer.Buffer, error) {
 }
 func (h *c16Handler) Done() { h.done++ }
 
+func c16ParseLevels(s Sx) ([][]c16Answer, bool) {
+	if s.IsAtom || s.Len() < 1 || s.Len() > 4 {
+		return nil, false
+	}
+	out := [][]c16Answer{}
+	for _, l := range s.List {
+		as, ok := c16ParseAnswers(l)
+		if !ok {
+			return nil, false
+		}
+		out = append(out, as)
+	}
+	return out, true
+}
+
+func c16Need(b0 c16Buf, levels [][]c16Answer, size int64) [][]byte {
+	need := [][]byte{}
+	add := func(c []byte) { need = append(need, c, c09Prefix(c, size)) }
+	c, _ := b0.ucontent()
+	add(c)
+	for _, answers := range levels {
+		for _, a := range answers {
+			if a.replace {
+				c, _ := a.buf.ucontent()
+				add(c)
+			}
+		}
+	}
+	add(c16StitchStack(b0, levels))
+	return need
+}
+
 func (c16) Exec(in Sx) (Sx, bool) {
 	if in.IsAtom || in.Len() != 6 {
 		return Sx{}, false
@@ -187,24 +233,13 @@ func (c16) Exec(in Sx) (Sx, bool) {
 	if !ok {
 		return Sx{}, false
 	}
-	answers, ok := c16ParseAnswers(in.Nth(3))
+	levels, ok := c16ParseLevels(in.Nth(3))
 	if !ok || !c09CheckMethod(in.Nth(4)) || !c09CheckTable(in.Nth(5)) {
 		return Sx{}, false
 	}
 	fn := remoteexecution.DigestFunction_Value(in.Nth(1).Nth(0).Int())
 	size := in.Nth(1).Nth(2).Z
-	need := [][]byte{}
-	add := func(c []byte) { need = append(need, c, c09Prefix(c, size)) }
-	c, _ := b0.ucontent()
-	add(c)
-	for _, a := range answers {
-		if a.replace {
-			c, _ := a.buf.ucontent()
-			add(c)
-		}
-	}
-	add(c16Stitch(b0, answers))
-	if !c09TableCovers(in.Nth(5), fn, size, need...) {
+	if !c09TableCovers(in.Nth(5), fn, size, c16Need(b0, levels, size)...) {
 		return Sx{}, false
 	}
 
@@ -213,20 +248,38 @@ func (c16) Exec(in Sx) (Sx, bool) {
 	if srcK.Z == 1 {
 		source = buffer.BackendProvided(func(valid bool) { cbs = append(cbs, AB(valid)) })
 	}
-	mk := func(b c16Buf) buffer.Buffer { return c16Make(b, dg, source) }
-	h := &c16Handler{answers: answers, mk: mk}
-	b := buffer.WithErrorHandler(mk(b0), h)
+	closes := []func() int{}
+	mk := func(b c16Buf) buffer.Buffer { return c16Make(b, dg, source, &closes) }
+	b := mk(b0)
+	hs := []*c16Handler{}
+	for _, answers := range levels {
+		h := &c16Handler{answers: answers, mk: mk, onErr: []int{}}
+		hs = append(hs, h)
+		b = buffer.WithErrorHandler(b, h)
+	}
 	o := c09Consume(b, in.Nth(4))
-	return L(LBytes(o.data), AI(o.code), LInts(o.extra), L(cbs...), LInts(h.onErr), AI(h.done), LBytes(o.aux)), true
+	onErrs, dones, closed := []Sx{}, []Sx{}, []Sx{}
+	for _, h := range hs {
+		onErrs = append(onErrs, LInts(h.onErr))
+		dones = append(dones, AI(h.done))
+	}
+	for _, f := range closes {
+		closed = append(closed, AI(f()))
+	}
+	return L(LBytes(o.data), AI(o.code), LInts(o.extra), L(cbs...), L(onErrs...), L(dones...), LBytes(o.aux), L(closed...)), true
 }
 
-func c16Make(b c16Buf, dg digest.Digest, source buffer.Source) buffer.Buffer {
+func c16Make(b c16Buf, dg digest.Digest, source buffer.Source, closes *[]func() int) buffer.Buffer {
 	evs := append([]c09Ev{}, b.evs...)
 	switch b.kind {
 	case 0:
-		return buffer.NewCASBufferFromChunkReader(dg, &c09ChunkSrc{evs: evs}, source)
+		src := &c09ChunkSrc{evs: evs}
+		*closes = append(*closes, func() int { return src.closed })
+		return buffer.NewCASBufferFromChunkReader(dg, src, source)
 	case 1:
-		return buffer.NewCASBufferFromReader(dg, &c09ReaderSrc{evs: evs, attach: b.attach}, source)
+		src := &c09ReaderSrc{evs: evs, attach: b.attach}
+		*closes = append(*closes, func() int { return src.closed })
+		return buffer.NewCASBufferFromReader(dg, src, source)
 	case 2:
 		return buffer.NewValidatedBufferFromByteSlice(b.data)
 	}
@@ -315,7 +368,13 @@ func (c16) Gen(r *Rand, i int, tier string) Sx {
 		}
 		return c
 	}
+	depth := 1
+	if r.Chance(35) {
+		depth = 2 + r.Intn(2)
+	}
 	failures := r.Pick([]int{0, 1, 1, 1, 2, 2, 3})
+	// unrecoverable: at some failure every handler of the stack answers with an error
+	unrecoverable := failures > 0 && r.Chance(map[bool]int{false: 10, true: 40}[depth > 1])
 	bufs := []Sx{}
 	for k := 0; k <= failures; k++ {
 		c := variant()
@@ -330,43 +389,66 @@ func (c16) Gen(r *Rand, i int, tier string) Sx {
 		}
 		bufs = append(bufs, b)
 	}
-	answers := []Sx{}
+	// The k-th failure is handled by a level at or above the level that handled
+	// the previous one (the levels below a replacing level are finished); the
+	// active levels below the handling level answer with errors.
+	levels := make([][]Sx, depth)
+	fail := func(l int) { levels[l] = append(levels[l], L(A(1), AI(r.Pick(c09Codes)))) }
+	lo := 0
+	giveUpAt := -1
+	if unrecoverable {
+		giveUpAt = 1 + r.Intn(failures)
+	}
 	for k := 1; k < len(bufs); k++ {
-		if r.Chance(8) {
-			answers = append(answers, L(A(1), AI(r.Pick(c09Codes))))
+		if k == giveUpAt || (depth == 1 && r.Chance(8)) {
+			for l := lo; l < depth; l++ {
+				if l == depth-1 && r.Chance(15) {
+					break // the outermost handler has no answer left
+				}
+				fail(l)
+			}
 			break
 		}
-		answers = append(answers, L(A(0), bufs[k]))
+		h := lo
+		for h < depth-1 && r.Chance(40) {
+			h++
+		}
+		for l := lo; l < h; l++ {
+			fail(l)
+		}
+		levels[h] = append(levels[h], L(A(0), bufs[k]))
+		lo = h
 	}
+	l := r.Intn(depth)
 	switch r.Intn(12) {
 	case 0:
-		if len(answers) > 0 {
-			answers = answers[:len(answers)-1] // handler runs out of answers
+		if len(levels[l]) > 0 {
+			levels[l] = levels[l][:len(levels[l])-1] // handler runs out of answers
 		}
 	case 1:
-		answers = append(answers, L(A(1), AI(r.Pick(c09Codes)))) // unused or final error
+		fail(l) // unused or final error
 	case 2:
-		answers = append(answers, L(A(0), c16GenBuf(r, good, false, true)))
+		levels[l] = append(levels[l], L(A(0), c16GenBuf(r, good, false, true)))
 	}
 	m := c09GenMethod(r, int(size))
 	for (m.Nth(0).Int() == 0 || m.Nth(0).Int() == 5) && m.Nth(1).Z < 0 {
 		m = c09GenMethod(r, int(size))
 	}
-	// table
-	b0, _ := c16ParseBuf(bufs[0], false)
-	as, _ := c16ParseAnswers(L(answers...))
-	contents := [][]byte{good}
-	add := func(c []byte) { contents = append(contents, c, c09Prefix(c, size)) }
-	c0, _ := b0.ucontent()
-	add(c0)
-	for _, a := range as {
-		if a.replace {
-			c, _ := a.buf.ucontent()
-			add(c)
+	if depth > 1 && r.Chance(50) {
+		// the streaming methods are where the readers nest
+		for k := m.Nth(0).Int(); k != 1 && k != 3 && k != 4; k = m.Nth(0).Int() {
+			m = c09GenMethod(r, int(size))
 		}
 	}
-	add(c16Stitch(b0, as))
-	return L(AI(r.Pick([]int{0, 1, 1})), L(AI(int(fn)), LBytes(hash), A(size)), bufs[0], L(answers...), m,
+	// table
+	lv := make([]Sx, depth)
+	for i := range levels {
+		lv[i] = L(levels[i]...)
+	}
+	b0, _ := c16ParseBuf(bufs[0], false)
+	ls, _ := c16ParseLevels(L(lv...))
+	contents := append([][]byte{good}, c16Need(b0, ls, size)...)
+	return L(AI(r.Pick([]int{0, 1, 1})), L(AI(int(fn)), LBytes(hash), A(size)), bufs[0], L(lv...), m,
 		c09Table(fn, size, contents...))
 }
 
@@ -381,6 +463,13 @@ func (c16) Class(in, obs Sx) (string, bool) {
 	case -1:
 		out = "eof"
 	}
-	j := obs.Nth(4).Len()
-	return meth + "/" + kind + "/" + out + "/onerror" + strconv.Itoa(j), j >= 1
+	j := 0
+	asked := 0
+	for _, l := range obs.Nth(4).List {
+		j += l.Len()
+		if l.Len() > 0 {
+			asked++
+		}
+	}
+	return meth + "/" + kind + "/" + out + "/onerror" + strconv.Itoa(j) + "/depth" + strconv.Itoa(in.Nth(3).Len()) + "asked" + strconv.Itoa(asked), j >= 1
 }
